@@ -24,6 +24,9 @@ import (
 	"perkeep.org/pkg/blob"
 	"perkeep.org/pkg/index"
 	"perkeep.org/pkg/sorted"
+	_ "perkeep.org/pkg/sorted/kvfile"
+	_ "perkeep.org/pkg/sorted/leveldb"
+	_ "perkeep.org/pkg/sorted/sqlite"
 	"perkeep.org/pkg/types/camtypes"
 
 	"verif/gate"
